@@ -302,6 +302,8 @@ func doParseType(vt reflect.Type, def string, i *int, allowPtrs bool) (*Type, er
 		/* parse the pointer element recursively */
 		if ret.V, err = doParseType(vt.Elem(), def, i, false); err != nil {
 			return nil, err
+		} else if ret.V.T == T_map || ret.V.T == T_set || ret.V.T == T_list {
+			return nil, EType(vt, "pointers to containers are not allowed")
 		} else {
 			return ret, nil
 		}
